@@ -172,3 +172,86 @@ Qed.
 
 Lemma arg_ids_distinct j1 j2 f1 f2 : j1 <> j2 -> arg_id j1 f1 <> arg_id j2 f2.
 Proof. unfold arg_id. intros N E. injection E as E1 _. lia. Qed.
+
+(* ------------------------------------------------------------------------------------------ *)
+(* The collection of the variants of a message enum (`MsgVariants::*` of types/msg_variant.rs): for ANY number of variants, one
+   match arm, one published name, one constructor and one enum variant per variant, in order. *)
+Definition variant4 (v : string * list value * value * string) : value :=
+  let '(n, fs, fnm, k) := v in variant_v (VStr n) fs fnm k.
+Definition variants_v (l : list (string * list value * value * string)) : value :=
+  VRec "MsgVariants" [("variants", VArr (map variant4 l))].
+
+Definition arm_of_variant (v : string * list value * value * string) : value :=
+  let '(n, fs, fnm, k) := v in
+  quote_v (l_arm leg_T)
+    [("name", VStr n); ("fields", VArr (binds_from leg_T 0 fs)); ("method_call", leg_call leg_T k fnm (args_from 0 fs))].
+Definition name_of_variant (v : string * list value * value * string) : value :=
+  let '(n, _, _, _) := v in VCon "serde_snake_case" [VStr n].
+
+Lemma firstn_snoc2 {A} (l : list A) j x : nth_error l j = Some x -> firstn (S j) l = firstn j l ++ [x].
+Proof. apply firstn_snoc. Qed.
+
+Local Ltac vmap_setup l spec :=
+  eapply calls_intro with (c := CVal _); try reflexivity;
+  simpl fn_body; cbn [app combine fn_params];
+  eapply ev_block; [|reflexivity]; apply ev_stmts_tail; eapply ev_block; [|reflexivity];
+  (eapply ev_stmts_let; [cmp 4 | reflexivity |]);
+  (eapply ev_stmts_let; [cmp 4 | reflexivity |]); cbn [app].
+
+Theorem translated_variant_names l :
+  calls LEG 2 "MsgVariants::as_names_snake_cased" [variants_v l] (CVal (VArr (map name_of_variant l))).
+Proof.
+  vmap_setup l name_of_variant.
+  match goal with |- evals_stmts ?P ?dd (SExpr (EFor ?i ?lo ?hi ?b) :: ?rest) ?en ?res =>
+    destruct (ev_for_inv P dd i b (fun j en' => en' = ("map_acc1", VArr (map name_of_variant (firstn j l))) :: List.tl en) (length l) 0 en)
+      as (enf & Hfor & Hinv) end.
+  - reflexivity.
+  - intros j en' Hj ->. cbn [List.tl].
+    destruct (nth_error l j) as [[[[n fs] fnm] k]|] eqn:Hnth; [|apply nth_error_None in Hnth; lia].
+    assert (Hm : nth_error (map variant4 l) j = Some (variant4 (n, fs, fnm, k))) by (rewrite nth_error_map, Hnth; reflexivity).
+    rewrite (firstn_snoc2 _ _ _ Hnth), map_app. cbn [map].
+    eexists. eexists. split.
+    + eapply ev_block; [|reflexivity].
+      eapply ev_stmts_let; [apply (evals_compute _ 6); intros gg fl; simpl; rewrite Hm; reflexivity | reflexivity |].
+      apply ev_stmts_tail. cmp 30.
+    + reflexivity.
+  - rewrite Hinv in Hfor. cbn [List.tl] in Hfor.
+    eapply ev_stmts_expr.
+    + eapply ev_for; [cmp 2 | apply (evals_compute _ 4); intros gg fl; simpl; rewrite map_length; reflexivity | rewrite Nat.sub_0_r; exact Hfor].
+    + apply ev_stmts_tail. cbn [Nat.add]. rewrite firstn_all. cmp 4.
+Qed.
+
+Theorem translated_dispatch_legs l :
+  Forall (fun v : string * list value * value * string => In (snd v) six_kinds) l ->
+  calls LEG 4 "MsgVariants::emit_dispatch_legs" [variants_v l] (CVal (VArr (map arm_of_variant l))).
+Proof.
+  intros Hkinds.
+  vmap_setup l arm_of_variant.
+  match goal with |- evals_stmts ?P ?dd (SExpr (EFor ?i ?lo ?hi ?b) :: ?rest) ?en ?res =>
+    destruct (ev_for_inv P dd i b (fun j en' => en' = ("map_acc1", VArr (map arm_of_variant (firstn j l))) :: List.tl en) (length l) 0 en)
+      as (enf & Hfor & Hinv) end.
+  - reflexivity.
+  - intros j en' Hj ->. cbn [List.tl].
+    destruct (nth_error l j) as [[[[n fs] fnm] k]|] eqn:Hnth; [|apply nth_error_None in Hnth; lia].
+    assert (Hm : nth_error (map variant4 l) j = Some (variant4 (n, fs, fnm, k))) by (rewrite nth_error_map, Hnth; reflexivity).
+    pose proof (proj1 (Forall_forall _ _) Hkinds _ (nth_error_In _ _ Hnth)) as Hk. cbn [snd] in Hk.
+    rewrite (firstn_snoc2 _ _ _ Hnth), map_app. cbn [map].
+    eexists. eexists. split.
+    + eapply ev_block; [|reflexivity].
+      eapply ev_stmts_let; [apply (evals_compute _ 6); intros gg fl; simpl; rewrite Hm; reflexivity | reflexivity |].
+      apply ev_stmts_tail.
+      eapply ev_assign_var.
+      * eapply ev_call_builtin.
+        -- eapply ev_list_cons; [cmp 2|]. eapply ev_list_cons; [|apply ev_list_nil].
+           eapply ev_call; [apply (evals_list_compute _ 4); intros gg fl; reflexivity|].
+           apply (translated_dispatch_leg (VStr n) fs fnm k Hk).
+        -- reflexivity.
+        -- reflexivity.
+      * reflexivity.
+      * reflexivity.
+    + reflexivity.
+  - rewrite Hinv in Hfor. cbn [List.tl] in Hfor.
+    eapply ev_stmts_expr.
+    + eapply ev_for; [cmp 2 | apply (evals_compute _ 4); intros gg fl; simpl; rewrite map_length; reflexivity | rewrite Nat.sub_0_r; exact Hfor].
+    + apply ev_stmts_tail. cbn [Nat.add]. rewrite firstn_all. cmp 4.
+Qed.
